@@ -151,7 +151,15 @@ def r2_temperature(ctx):
         gs = cfg.if_guards(w)
         tests = [(U(cfg.stmt[h].test), lab) for h, lab in gs]
         plateau = any("% self._annealing_period == 0" in t and lab for t, lab in tests)
-        bounded = any(t.replace('"', "'") == "self.current_iteration <= self.algo_parameters['annealing']['n_iter']" and lab for t, lab in tests)
+        # a guard that holds exactly while iteration <= annealing.n_iter, whichever way it is written (evaluated at n_iter - 1, n_iter, n_iter + 1)
+        def _bounded(h, lab):
+            NI = "self.algo_parameters['annealing']['n_iter']"
+            try:
+                vals = [bool(eval_guard(cfg.stmt[h].test, {"self.current_iteration": k, NI: 10})) == lab for k in (9, 10, 11)]
+            except (GuardUnsupported, TypeError):
+                return False
+            return vals == [True, True, False]
+        bounded = any(_bounded(h, lab) for h, lab in gs)
         ctx.check(plateau, "C19.R2", upd, st, "changes only at plateau boundaries (iteration % period == 0)", "the temperature is written outside plateau boundaries", construct=U(st) + " [plateau]")
         ctx.check(bounded, "C19.R2", upd, st, "changes only while iteration <= annealing.n_iter", "the temperature keeps changing after the annealing iterations", construct=U(st) + " [bounded]")
         ctx.check(bool(inv_writes) and cfg.all_paths_pass(w, inv_writes), "C19.R2", upd, st, "temperature_inv recomputed after this write on every path",
@@ -317,10 +325,27 @@ def r3_std(ctx, rid="C19.R3", title=None):
         idx = st.target.slice if isinstance(st.target, ast.Subscript) else None
         mask = inl.text(idx) if idx is not None else ""
         fac = U(st.value)
-        if "<" in mask and "lower_bound" in mask:
+        # the band test, read with the rate on the left whichever way it is written (`rate < lower` == `lower > rate`)
+        side = None
+        try:
+            me = ast.parse(mask, mode="eval").body if mask else None
+        except SyntaxError:
+            me = None
+        if isinstance(me, ast.Compare) and len(me.ops) == 1:
+            l_, r_ = U(me.left), U(me.comparators[0])
+            op = type(me.ops[0])
+            if "acceptation_history" in r_ and "acceptation_history" not in l_:
+                l_, r_ = r_, l_
+                op = {ast.Lt: ast.Gt, ast.Gt: ast.Lt, ast.LtE: ast.GtE, ast.GtE: ast.LtE}.get(op, op)
+            if "acceptation_history" in l_:
+                if op in (ast.Lt, ast.LtE) and "lower_bound" in r_:
+                    side = "below"
+                elif op in (ast.Gt, ast.GtE) and "upper_bound" in r_:
+                    side = "above"
+        if side == "below":
             ctx.check(fac in ("1 - self._adaptive_std_factor", "1.0 - self._adaptive_std_factor"), rid, upd, st, "rate below the band -> scale * (1 - f)",
                       f"blocks whose acceptance rate is below the band are multiplied by `{fac}` (documented: 1 - factor)")
-        elif ">" in mask and "upper_bound" in mask:
+        elif side == "above":
             ctx.check(fac in ("1 + self._adaptive_std_factor", "1.0 + self._adaptive_std_factor"), rid, upd, st, "rate above the band -> scale * (1 + f)",
                       f"blocks whose acceptance rate is above the band are multiplied by `{fac}` (documented: 1 + factor)")
         else:
